@@ -406,6 +406,82 @@ def stage_line_comment(ctx: Ctx, progs):
             ctx.violation('line-comment|comments', 'put_line_comment changed more than the addressed comment', {'src': before, 'after': after, 'comment': cm, 'stmt_line': n.lineno})
 
 
+def stage_targeted(ctx: Ctx):
+    """deterministic sweeps of two situations random edits rarely hit: (a) statement delete / cut / replace with trailing-space
+    trivia when blank lines and then a comment of the NEXT statement follow; (b) two successive replacements of an expression
+    that stands behind non-ASCII text on its line"""
+    import fst
+    import tokenize as _tk
+    import io as _io
+
+    def comments(src):
+        try:
+            return sorted(t.string for t in _tk.generate_tokens(_io.StringIO(src).readline) if t.type == _tk.COMMENT)
+        except Exception:
+            return None
+
+    # (a)
+    trivias = [(True, 'line+2'), 'line+', (False, 'block+2'), ('all+', 'line+1'), (True, 'block+'), ('block', 'line+1'), (True, 'none+2'), (True, True), None]
+    for blanks in (1, 2, 3):
+        for own in ('', '  # own'):
+            for ind, head in (('', ''), ('    ', 'if c:\n')):
+                body = f'{ind}a = 1{own}\n' + '\n' * blanks + f'{ind}# belongs to b\n{ind}b = 2\n' + f'{ind}c = 3\n'
+                src = head + body
+                for tv in trivias:
+                    for act in ('remove', 'cut', 'replace', 'put_slice_del'):
+                        root = fst.FST(src, 'exec')
+                        holder = root.body[0] if head else root
+                        st = holder.body[0]
+                        kw = {} if tv is None else {'trivia': tv}
+                        try:
+                            if act == 'remove':
+                                st.remove(**kw)
+                            elif act == 'cut':
+                                st.cut(**kw)
+                            elif act == 'replace':
+                                st.replace('z = 0', **kw)
+                            else:
+                                holder.put_slice(None, 0, 1, 'body', **kw)
+                        except Exception:
+                            continue
+                        ctx.tick(('targeted-a', blanks, own, ind, repr(tv), act), 'op:targeted-trailing-space')
+                        after = root.src
+                        want = ['# belongs to b'] + (['# own'] if own and act == 'replace' and False else [])
+                        have = comments(after)
+                        if have is None or '# belongs to b' not in have:
+                            ctx.violation('comment-lost|next-statement-comment-after-blank-lines', 'deleting a statement with trailing-space trivia removed a comment line that belongs to the next statement',
+                                          {'before': src, 'after': after, 'action': act, 'trivia': repr(tv)})
+                        try:
+                            ast.parse(after)
+                        except SyntaxError as e:
+                            ctx.violation('text|targeted|unparsable', 'the edited source no longer parses', {'before': src, 'after': after, 'action': act, 'trivia': repr(tv), 'error': str(e)})
+    # (b)
+    lines = ['d = {{"ключ": {E}, "k": [y, z]}}  # коммент', 'r = "naïve café" + {E} * w', 'f("日本語", {E}, kw={E2})', 'ü = [é, {E}, "ö"]']
+    for tmpl in lines:
+        for e1 in ('old(x)', 'o'):
+            src = tmpl.replace('{E2}', 'q').replace('{E}', e1) + '\nnext_line = 1\n'
+            tree = ast.parse(src)
+            # the node whose source is e1: found by position of the text
+            col = src.index(e1)
+            for n1 in ('new_one', 'nn(1, 2)'):
+                for n2 in ('second', '(a, b)', 'x.y'):
+                    root = fst.FST(src, 'exec')
+                    tgt = next((f for f in root.walk(True) if f.loc is not None and f.loc[0] == 0 and f.loc[1] == col and f.loc[3] == col + len(e1) and isinstance(f.a, ast.expr)), None)
+                    if tgt is None:
+                        continue
+                    try:
+                        new = tgt.replace(n1)
+                        new.replace(n2)
+                    except Exception as e:
+                        ctx.violation('text|targeted|two-step-raise', 'two successive replacements raised', {'before': src, 'first': n1, 'second': n2, 'error': repr(e)[:200]})
+                        continue
+                    ctx.tick(('targeted-b', tmpl, e1, n1, n2), 'op:targeted-nonascii-two-step')
+                    want = src[:col] + n2 + src[col + len(e1):]
+                    if root.src != want:
+                        ctx.violation('text|targeted|two-step-nonascii', 'replacing an expression twice behind non-ASCII text changed text outside the expression',
+                                      {'before': src, 'first': n1, 'second': n2, 'after': root.src, 'expected': want})
+
+
 def run(ctx: Ctx):
     ctx.rule = ('(1) random line blocks for leading_trivia, model vs real; (2) random edit sequences; after each successful op the token stream (COMMENT '
                 'included) before/after is compared: the changed window must lie inside the element extent extended by adjacent separators, own '
@@ -420,6 +496,7 @@ def run(ctx: Ctx):
     progs = corpus(ctx.rng, gen=ctx.scale(25, 200))
     run_guarded(ctx, stage_oracle, progs)
     run_guarded(ctx, stage_line_comment, progs)
+    run_guarded(ctx, stage_targeted)
 
 
 def replay(path):
